@@ -15,7 +15,7 @@ PROPERTY = "C10"
 LEVEL = "fault_enumeration"
 RULE = (
     "generated commands, responses, structures and streams: the whole input and every cut point, with a counting byte "
-    "source (pull log vs running sum of emitted field bytes); 9 other source kinds (bytes, bytearray, list, tuple, iterator, "
+    "source (pull log vs running sum of emitted field bytes); 11 other source kinds (file objects through bytes_from_files, an iterator with close(), bytes, bytearray, list, tuple, iterator, "
     "generator, memoryview, array, deque) must give identical events / outcome; hex and swtpm-log renderings with layout "
     "noise fed through a counting character source; several files through bytes_from_files with logged read() calls; "
     "distinct = distinct (type/code, cut position) and (front-end, stream, layout) cases"
